@@ -464,6 +464,105 @@ def run_simplegp_search(h: Harness, tmp: str, n: int, k: int, only_best: bool, s
     h.count("simplegp-search")
 
 
+def check_second_search_same_log(h: Harness, tmp: str):
+    """a tracker and its best-only CSV log live through SEVERAL searches (restarts with other seeds sharing one log): over the whole
+    file a row is written for the first registration and for strict improvements on everything registered before -- a later search
+    does not start over"""
+    from geneticengine.algorithms.gp.gp import GeneticProgramming
+    from geneticengine.algorithms.random_search import RandomSearch
+    from geneticengine.evaluation.budget import EvaluationBudget
+    from geneticengine.grammar.grammar import extract_grammar
+    from geneticengine.random.sources import NativeRandomSource
+    from geneticengine.representations.tree.initializations import MaxDepthDecider
+    from geneticengine.representations.tree.treebased import TreeBasedRepresentation
+    g = extract_grammar([SearchLeaf, SearchNode], SearchRoot)
+    for trial, (minimize, algos) in enumerate([(False, ("gp", "gp")), (True, ("gp", "rs", "gp")), (False, ("rs", "gp"))]):
+        path = os.path.join(tmp, f"second{trial}.csv")
+        problem = SingleObjectiveProblem(lambda p: float((search_pid(p) * 7) % 23), minimize=minimize)
+        recorder = CSVSearchRecorder(path, problem, only_record_best_individuals=True)
+        spy = Spy()
+        tracker = SingleObjectiveProgressTracker(problem, recorders=[recorder, spy])
+        desc = f"one tracker + best-only log through the searches {algos} (minimize={minimize})"
+        try:
+            done = 0
+            for j, algo in enumerate(algos):
+                r = NativeRandomSource(10 * trial + j)
+                rep = TreeBasedRepresentation(g, MaxDepthDecider(r, g, 3))
+                done += 16
+                if algo == "gp":
+                    GeneticProgramming(problem, EvaluationBudget(done), rep, random=r, tracker=tracker, population_size=6).search()
+                else:
+                    RandomSearch(problem, EvaluationBudget(done), rep, random=r, tracker=tracker).search()
+            recorder.csv_file.flush()
+        except Exception as e:  # noqa: BLE001
+            h.fail("GeneticProgramming.search", "raises", f"{desc}: {type(e).__name__}: {e}", [trial])
+            continue
+        finally:
+            recorder.csv_file.close()
+        aggs = [int(-i.get_fitness(problem).fitness_components[0] if minimize else i.get_fitness(problem).fitness_components[0]) for (i, _) in spy.log]
+        flags = [f for (_, f) in spy.log]
+        snap, prob = read_snapshot(path)
+        rows = len(snap) - 1 if snap else -1
+        h.count("second-search-same-log")
+        h.seen(f"second-search:{trial}", nontrivial=True)
+        h.holds("SingleObjectiveProgressTracker.evaluate", "row-flagged-best-is-not-a-strict-improvement", ["prop_flags", aggs, flags],
+                f"{desc}: {len(aggs)} registrations, is_best flags {flags}", [trial])
+        want = sum(1 for j, a in enumerate(aggs) if j == 0 or a > max(aggs[:j]))
+        if rows != want:
+            h.fail("CSVSearchRecorder.register", "best-only-log-misses-a-strict-improvement" if rows < want else "column-not-faithful",
+                   f"{desc}: {want} registrations are the first or a strict improvement on everything registered before, the file has {rows} rows", [trial])
+
+
+def check_reregistered_individuals(h: Harness, tmp: str):
+    """an individual can be registered again later (an elite carried into the next generation): its row shows ITS fitness components
+    again -- also when the fitness function fills and returns one preallocated list of floats, and other individuals were evaluated
+    in between"""
+    import csv as csvmod
+    rng = h.rng
+    for trial in range(h.n(12, 80)):
+        k = rng.randint(1, 3)
+        minimize = [rng.random() < 0.5 for _ in range(k)]
+        buf: list = []
+
+        def into_buffer(p, buf=buf):
+            buf[:] = [float(c) for c in p.fit]
+            return buf
+        problem = MultiObjectiveProblem(list(minimize), into_buffer)
+        path = os.path.join(tmp, f"rereg{trial}.csv")
+        recorder = CSVSearchRecorder(path, problem, only_record_best_individuals=False)
+        tracker = MultiObjectiveProgressTracker(problem, recorders=[recorder])
+        n = rng.randint(3, 6)
+        inds = [make_ind(i, 4 * i, [rng.randint(0, 9) + i * 10 for _ in range(k)]) for i in range(n)]
+        order = list(range(n)) + [rng.randrange(n) for _ in range(rng.randint(2, 5))]
+        rng.shuffle(order)
+        desc = f"CSV log under the real multi-objective tracker, fitness function returns one reused list; presentation order {order}"
+        try:
+            for j in order:
+                tracker.evaluate([inds[j]])
+            recorder.csv_file.flush()
+        except Exception as e:  # noqa: BLE001
+            h.fail("CSVSearchRecorder.register", "raises", f"{desc}: {type(e).__name__}: {e}", [trial])
+            continue
+        finally:
+            recorder.csv_file.close()
+        with open(path, newline="") as f:
+            rows = list(csvmod.reader(f))
+        h.count("reregistered-individuals")
+        h.seen(f"rereg:{trial}:{order}", nontrivial=len(set(order)) < len(order))
+        if len(rows) != len(order) + 1:
+            h.fail("CSVSearchRecorder.register", "column-not-faithful", f"{desc}: {len(order)} registrations, {len(rows) - 1} rows", [trial])
+            continue
+        header = rows[0]
+        cols = [header.index(f"Fitness{c}") for c in range(k)]
+        for r, j in zip(rows[1:], order):
+            got = [float(r[c]) for c in cols]
+            want = [float(x) for x in inds[j].phenotype.fit]
+            if got != want:
+                h.fail("CSVSearchRecorder.register", "column-not-faithful",
+                       f"{desc}: the row of individual #{j} (components {want}) shows the fitness columns {got}", [trial, order, j])
+                break
+
+
 def check_extreme_first(h: Harness, tmp: str):
     """the first registered individual is a new best whatever its fitness is -- also the worst value there is (inf when
     minimising, -inf when maximising) or NaN: its row opens the best-only log.  For the infinities the later flags are
@@ -559,6 +658,8 @@ def run(h: Harness):
     try:
         check_extreme_first(h, tmp)
         check_tiny_improvements(h, tmp)
+        check_second_search_same_log(h, tmp)
+        check_reregistered_individuals(h, tmp)
         n = 0
         for case in CORPUS:
             run_case(h, case, tmp, n)
